@@ -62,12 +62,18 @@ def merged_world(w, vi, addend_wire):
     t.shape = t.W.shape
     t.weighted = w.weighted
     t.extra = {}
+    for name, m in w.extra.items():
+        # additive carried measures (squared weights) merge like the counts
+        M = np.empty(w.shape, dtype=object)
+        for idx, x in zip(np.ndindex(w.shape), m["data"]):
+            M[idx] = x
+        t.extra[name] = dict(m, data=SymList(merge(M).reshape(-1).tolist()))
     return t, keep.index(first)
 
 
-def merge_equiv(eng, axis=0, other="cat", style="args", where="view", stale=True, strict=True, neg_stale=False):
+def merge_equiv(eng, axis=0, other="cat", style="args", where="view", stale=True, strict=True, neg_stale=False, squared=False, repeat=False):
     """a subtotal without subtrahends == the merged category, for every measure defined for it"""
-    ids = [1, 3] + ([99, -1] if stale else [])
+    ids = [1, 3] + ([99, -1] if stale else []) + ([3, 1] if repeat else [])
     ins = {"anchor": 2, "function": "subtotal", "name": "S13"}
     if style == "args":
         ins["args"] = ids
@@ -81,6 +87,11 @@ def merge_equiv(eng, axis=0, other="cat", style="args", where="view", stale=True
     specs = [sub_var, oth] if axis == 0 else [oth, sub_var]
     vi = 0 if axis == 0 else 1
     w = CellWorld(eng, specs, w_strict=strict)
+    if squared:
+        SQ = w.free_measure("weighted_squared_count", "q")
+        for idx in np.ndindex(w.shape):
+            if eng.symbolic:
+                eng.assume(Q.lift(SQ[idx]) > 0)
     dimkey = "rows_dimension" if axis == 0 else "columns_dimension"
     tr = {dimkey: {"insertions": [dict(ins, id=1)]}} if where == "transforms" else None
     P = eng.pyreal("P", lo=0)
@@ -325,6 +336,8 @@ def specs(tier):
     add("merge cols x cat (kwargs, transforms)", "merge_equiv", dict(axis=1, style="kwargs", where="transforms"))
     add("merge rows x cat, stale/missing subtrahend ids", "merge_equiv", dict(axis=0, style="kwargs", neg_stale=True))
     add("merge cols x cat, stale/missing subtrahend ids", "merge_equiv", dict(axis=1, style="kwargs", neg_stale=True, where="transforms"))
+    add("merge cols x cat with squared weights (effective base of the subtotal)", "merge_equiv", dict(axis=1, style="kwargs", squared=True, stale=False))
+    add("merge rows x cat, ids repeated in the addend list", "merge_equiv", dict(axis=0, repeat=True))
     add("merge rows x mr", "merge_equiv", dict(axis=0, other="mr", style="kwargs"))
     add("merge cols, mr rows", "merge_equiv", dict(axis=1, other="mr", stale=False))
     add("merge rows x cat, zero counts allowed", "merge_equiv", dict(axis=0, style="kwargs", strict=False), max_paths=400)
